@@ -120,7 +120,12 @@ class Pseudo2NetCDF:
         try:
             typecode = pvar.typecode()
         except Exception:
-            typecode = pvar[...].dtype.char
+            # the variable's own type, not the type of its data: reading a
+            # masked scalar yields numpy's float64 masked constant
+            typecode = getattr(pvar, 'dtype', pvar[...].dtype).char
+        if typecode == 'S':
+            # numpy's code for character data; netCDF calls it 'c'
+            typecode = 'c'
 
         create_variable_kwds = self.create_variable_kwds.copy()
         if hasattr(pvar, '_FillValue'):
